@@ -761,8 +761,9 @@ def z2s(
     """
 
     # Find rho-based horizontal grid cell (rho-point)
-    I = np.around(X).astype("int")
-    J = np.around(Y).astype("int")
+    # Half-way cases round upwards, independent of the subgrid offset
+    I = np.floor(X + 0.5).astype("int")
+    J = np.floor(Y + 0.5).astype("int")
     K: tuple[ParticleArray, ParticleArray] = z2s_kernel(I, J, Z, z_rho)
     return K
 
@@ -825,8 +826,8 @@ def sample3D(
         result: ParticleArray = trilinear(F, X, Y, K, A)
 
     else:  # method == 'nearest'
-        I = X.round().astype("int")
-        J = Y.round().astype("int")
+        I = np.floor(X + 0.5).astype("int")
+        J = np.floor(Y + 0.5).astype("int")
         result = F[K, J, I]
     return result
 
